@@ -22,6 +22,21 @@ Proof. exact record_roundtrip. Qed.
 Theorem C13_repeated_field_not_cached : forall thr txs, has_dup_field txs = true -> record_of thr txs = None.
 Proof. exact repeated_field_not_cached. Qed.
 
+(* a transaction the codec refuses (a pattern keyword that is not valid UTF-8: proto.Marshal fails) keeps the
+   whole conjunction out of the cache: nothing partial is written *)
+Theorem C13_unencodable_not_cached : forall thr txs,
+  forallb (fun t => encodable (tx_data t)) txs = false -> record_of thr txs = None.
+Proof.
+  intros thr txs H. unfold record_of. destruct (negb (existsb _ txs)); [reflexivity|].
+  destruct (has_dup_field txs); [reflexivity|]. rewrite H. reflexivity.
+Qed.
+Example C13_unencodable_nonvacuous :
+  let fd := {| fd_name := 3%N; fd_cont := CAc; fd_parser := PCommon |} in
+  let t := {| tx_field := fd; tx_eid := 17%N; tx_data := TxKeywords [[97; 98]%N; [1114367]%N; [99]%N] |} in
+  record_of 2 [t] = None /\
+  record_of 2 [{| tx_field := fd; tx_eid := 17%N; tx_data := TxKeywords [[97; 98]%N; [120]%N; [99]%N] |}] <> None.
+Proof. split; [reflexivity | discriminate]. Qed.
+
 (* misses and dropped writes are harmless by construction: a miss or an undecodable record makes the
    builder parse (tryUseIndexingTxCache returns nil), a dropped write only causes a later miss *)
 
@@ -95,6 +110,7 @@ Proof. exact pinned_range_lost. Qed.
 Print Assumptions C13_codec_roundtrip.
 Print Assumptions C13_record_reproduces_transactions.
 Print Assumptions C13_repeated_field_not_cached.
+Print Assumptions C13_unencodable_not_cached.
 Print Assumptions C13_cached_build_same_answers.
 Print Assumptions C13_cached_build_transparent.
 Print Assumptions C13_any_sequence_of_builds.
